@@ -5,6 +5,10 @@ cd /verif
 export GOFLAGS=-mod=mod GOPROXY=off
 unset GOTOOLCHAIN GOSUMDB
 ./scripts/mkfluxstub.sh
+# translated definitions (go2v) are regenerated from /repo
+mkdir -p build/bin coq/Gen
+( cd go2v && go build -o ../build/bin/go2v . )
+for spec in go2v/*.json; do ./build/bin/go2v /repo $spec; done
 # full clean .vo build of the whole Coq development
 ( cd coq && rm -f _CoqProject Makefile Makefile.conf && find . -name '*.vo' -o -name '*.vok' -o -name '*.vos' -o -name '*.glob' -o -name '.*.aux' | xargs -r rm -f )
 ./scripts/coqbuild.sh > build/coq-setup.log 2>&1 || { tail -40 build/coq-setup.log; echo "coq build failed" >&2; exit 1; }
